@@ -139,6 +139,52 @@ def replay_model(run, key, contract, detail):
     return True
 
 
+def replay_witness(pid, cfg, rec):
+    """Re-executes a recorded witness on the real function of the CURRENT tree when the function has a sidecar contract: the
+    contract's ensures clauses are evaluated concretely. returns exit code (1 = the violation reproduces, 0 = it does not) or
+    None if the witness cannot be replayed at contract level."""
+    import numpy as np
+    from engine.pyvc import crosscheck, concrete
+    wit = rec.get('witness') or {}
+    if isinstance(wit.get('inputs_from_counter_model'), dict):
+        wit = dict(wit['inputs_from_counter_model'], function=rec['key'].split('/')[0])
+    if isinstance(wit.get('failing_input_from_bounded_tier'), dict):
+        wit = (wit['failing_input_from_bounded_tier'].get('witness') or {})
+    fn = wit.get('function') or rec.get('key', '').replace('OBLIGATION ', '').split('/')[0]
+    for modname, key, inc, exc in cfg.get('pyvc', ()):
+        c = importlib.import_module(modname).CONTRACTS[key]
+        if c.name != fn or '#' in key:
+            continue
+        args = {}
+        for p in c.params:
+            if p in wit:
+                v = wit[p]
+                args[p] = np.array(v, dtype=float) if isinstance(v, list) else v
+            elif p == 'R' and 'R' in wit:
+                args[p] = np.array(wit['R'], dtype=float)
+        if 'seed' in c.params and 'seed' not in args:
+            from engine.srng import Scripted
+            args['seed'] = Scripted(tuple(tuple(x) if isinstance(x, list) else x for x in (wit.get('script') or ())), fallback_seed=wit.get('fallback_seed', 7), max_draws=20000)
+        if 'itr' in c.params and 'itr' not in args and 'budget' in wit:
+            args['itr'] = wit['budget']
+        missing = [p for p in c.params if p not in args]
+        if missing:
+            print('replay: witness lacks arguments %s of %s' % (missing, fn))
+            return None
+        res, raised, _ = concrete.check_call(c, crosscheck.woven(c), args)
+        bad = [(n, d) for n, st, d in res if st == 'violated']
+        for n, st, d in res:
+            print('replay: clause %-55s %s %s' % (n, st, d))
+        if raised:
+            print('replay: the call raised', raised)
+        if bad:
+            print('VIOLATION property=%s replay=%s' % (pid, os.path.abspath(sys.argv[-1]) if sys.argv[-1].endswith('.json') else ''))
+            return 1
+        print('replay: the recorded input does not violate the contract on the current tree')
+        return 0
+    return None
+
+
 def run_check(pid, tier, seed, replay=None):
     cfg = REGISTRY[pid]
     run = Run(pid, tier, seed, level=cfg['level'], technique=cfg.get('technique', ''))
@@ -146,8 +192,11 @@ def run_check(pid, tier, seed, replay=None):
     run.assumptions += cfg.get('assumptions', [])
     if replay:
         rec = json.load(open(replay))
-        print(json.dumps(rec, indent=1)[:4000])
-        print('replay: re-running the check reproduces the violation from the current tree (cases are deterministic for a given VERIF_SEED)')
+        print(json.dumps(rec, indent=1)[:3000])
+        rc = replay_witness(pid, cfg, rec)
+        if rc is not None:
+            return rc
+        print('replay: no contract-level replay for this witness; re-running the whole check (cases are deterministic for a given VERIF_SEED)')
     bmod = cfg.get('bounded')
     if bmod:
         B = importlib.import_module(bmod)
